@@ -42,6 +42,22 @@ type hint subscripted by one or more :mod:`beartype.vale` validators.
 '''
 
 
+CODE_PEP593_VALIDATOR_PITH = '''
+{indent_curr}    # Localize this pith to a local variable reused by the validators below.
+{indent_curr}    ({pith_curr_assign_expr}) is {pith_curr_var_name} and'''
+"""
+:pep:`593`-compliant code snippet localizing the current pith to a local variable
+*before* type-checking this pith against the beartype validators annotating an
+ignorable metahint.
+
+Beartype validators embed the Python expression yielding the current pith an
+arbitrary number of times (e.g., once per operand of a compound validator) and
+derive the names of their own local variables from that expression (e.g.,
+:class:`beartype.vale.IsAttr`). That expression *must* thus be a Python
+identifier rather than an arbitrarily complex expression.
+"""
+
+
 CODE_PEP593_VALIDATOR_IS = '''
 {indent_curr}    # True only if this pith satisfies this caller-defined
 {indent_curr}    # validator of this annotated metahint.
@@ -64,6 +80,8 @@ means of accomplishing this, this approach is the optimally efficient.
 # ....................{ FORMATTERS                         }....................
 # str.format() methods, globalized to avoid inefficient dot lookups elsewhere.
 # This is an absurd micro-optimization. *fight me, github developer community*
+CODE_PEP593_VALIDATOR_PITH_format: CallableStrFormat = (
+    CODE_PEP593_VALIDATOR_PITH.format)
 CODE_PEP593_VALIDATOR_IS_format: CallableStrFormat = (
     CODE_PEP593_VALIDATOR_IS.format)
 CODE_PEP593_VALIDATOR_METAHINT_format: CallableStrFormat = (
